@@ -31,13 +31,13 @@ def generate(seed, tier):
     empty_base = mem and r.random() < 0.5
     # 15% of the runs write through the multi-process writer (merged mode): the parent re-blocks the
     # sub-writers' posting runs and recomputes every term's statistics from their per-document data.
-    # (MpWriter.cancel() never reaches its sub-processes - DESIGN 10.3, not pursued - so these runs only commit.)
+    # (cancel and failing with-blocks included since MpWriter.cancel() was repaired, eb9bff1)
     pr = random.Random("%s/mp" % seed)
     mp = {"procs": pr.randint(2, 3), "batchsize": pr.randint(1, 5)} if pr.random() < 0.15 else None
     rec = _hist.generate_hist(
         ID, seed,
         gen_kwargs={"ntx": (0, 0) if empty_base else (1, 5), "maxops": 8, "p_iofault": 0.0,
-                    "p_raise": 0.0 if mp else 0.02, "p_cancel": 0.0 if mp else 0.03,
+                    "p_raise": 0.02, "p_cancel": 0.03,
                     "p_restart": 0.3, "p_delete": r.choice((0.0, 0.0, 0.2)),
                     "merges": ("none", "none", "default", "optimize", "custom")},
         cfg_kwargs={"want": want})
